@@ -12,10 +12,12 @@ oracle : from the property: each holder is empty or holds the value last stored 
 import itertools
 ID = "C20"
 MODULE = "PotasscoVerif.Props.C20"
+EXTRA_MODULES = ["PotasscoVerif.Props.C20rc"]
 THEOREMS = ["PotasscoVerif.C20.C20_once", "PotasscoVerif.C20.C20_single_owner", "PotasscoVerif.C20.C20_typed", "PotasscoVerif.C20.C20_set_get", "PotasscoVerif.C20.C20_self_assign",
-            "PotasscoVerif.C20.C20_copy_independent", "PotasscoVerif.C20.step_inv"]
-PARTIAL = {"C20_refcount": "the reference-counting half (IntrusiveSharedPtr, options shared by groups/contexts/parsed values) has a model that is compared with the code, "
-           "but no theorem; it is decided by correspondence and the trace oracle (all 120 destruction orders of five holders)"}
+            "PotasscoVerif.C20.C20_copy_independent", "PotasscoVerif.C20.step_inv",
+            "PotasscoVerif.C20rc.C20_refcount_exact", "PotasscoVerif.C20rc.C20_freed_iff_unreferenced", "PotasscoVerif.C20rc.C20_freed_once", "PotasscoVerif.C20rc.C20_pointers_valid", "PotasscoVerif.C20rc.step_inv"]
+PARTIAL = {"shared options": "that Option objects shared by groups, contexts and parse results use that pointer class correctly (who holds a pointer when) is not modelled call by call; "
+           "it is decided by the trace oracle over all 120 destruction orders of five holders; the pointer class itself is proved (Props/C20rc.lean)"}
 BSIZES = (4096,)
 RULE = ("seeded histories of 3..30 operations over four holders and four payload types (two in-place sized, two heap), incl. self-assignment, swaps of in-place payloads, "
         "adoption, surrender and clears; reference-count histories over four shared pointers; all 120 destruction orders of five holders of one shared option; "
@@ -28,7 +30,7 @@ LEVEL_TEXT = ("C20_once / C20_single_owner: for EVERY history of set, copy-assig
               "destroyed exactly once unless surrendered (then never). C20_typed/_set_get/_copy_independent: typed access returns the stored value for the stored type and a type "
               "error otherwise; a copy is a fresh object with equal value and all other holders are untouched. Tied to the code with instrumented in-place and heap payload types "
               "(identity inside the object) under ASan/LSan; shared-pointer histories and shared-option lifetimes by correspondence/oracle.")
-LEVEL_NOTE = ("Proved about Model/ValueStore.lean (object identity and destruction as ghost ids); model==code on ~5k (quick) / 120k (thorough) histories. Hypothesis: in-place types "
+LEVEL_NOTE = ("Refcount half: C20_refcount_exact / _freed_iff_unreferenced / _freed_once / _pointers_valid for every history of new/assign(also self)/reset on the RC model (ghost temporary references). Proved about Model/ValueStore.lean (object identity and destruction as ghost ids); model==code on ~5k (quick) / 120k (thorough) histories. Hypothesis: in-place types "
               "are bitwise movable. Trusted: Lean kernel+axioms, harness payload instrumentation, generator, oracle_vs().")
 
 def gen_vs(rng):
